@@ -308,14 +308,16 @@ PROPS["C06"] = dict(
 
 PROPS["C08"] = dict(
     suites=["c08", "c08c", "c08d"],
+    thorough_suites=["c08s"],
+    shards={"c08s": 2},
     lean_modules=["ServlinVerif.Props.C06", "ServlinVerif.Props.C05"],
     audit="Audit/C08.lean",
     rule="7 response families (Vec, empty, static str, File, TempFile, event stream with 2 events, empty event stream) x write error injected at "
          "every byte offset 0..200 (260) x 3 short-write schedules x Pending; File/TempFile bodies with declared length in {1,2,40,1000,70000} "
          "truncated to {0,1,half,len-1}, exact, longer, and deleted before open; the reference serialisation is produced by the same code "
          "with an intact source and a writer that never fails. Non-trivial = the failure point lies inside the serialisation.",
-    nontrivial=lambda tag, args, obs: "err:" in obs,
-    klass=lambda tag, args, obs: ("c08:body=%s:%s" % (args[3][:1], (obs.split(" r=")[1].split(" ")[0] if " r=" in obs else obs[:10]))) if tag == "c08" else "c08c:" + args[1].split(";")[1].split(":")[2][:4],
+    nontrivial=lambda tag, args, obs: "err:" in obs or tag == "c08s",
+    klass=lambda tag, args, obs: ("c08:body=%s:%s" % (args[3][:1], (obs.split(" r=")[1].split(" ")[0] if " r=" in obs else obs[:10]))) if tag == "c08" else ("c08s:stall=%ss" % args[0] if tag == "c08s" else "c08c:" + args[1].split(";")[1].split(":")[2][:4]),
     explanation="C08_prefix: for every response and failure offset k the bytes that reached the writer are exactly the first k bytes of the "
                 "intended serialisation and the result is Disconnected; C08_source_fault: a body source that is shorter than declared, "
                 "unreadable or missing yields a prefix of the serialisation with the intact source and an error result. The connection-level "
